@@ -145,7 +145,7 @@ def entry_points(ops, hist, frames, single):
         yield "ex", (lambda: build_captured(hist, frames).ex())
 
 
-def work(hists, open_ids):
+def work(hists, open_ids, quick=False):
     part = core.Part(open_ids)
     for hist in hists:
         ops = H.build(hist)
@@ -153,6 +153,11 @@ def work(hists, open_ids):
         tabs = H.hist_tables(hist)
         single = len(tabs) == 1 and not any(isinstance(s.get("b"), dict) and "table" in s["b"] for s in hist["steps"])
         datas = inputs.data_maps(tabs, 2, 1, inputs.D_ROWS_Q, inputs.E_ROWS_Q)
+        if quick:
+            # whether a frame is written to does not depend on its values: the empty table, every single row and
+            # the two-row tables made of different rows
+            datas = [dm for dm in datas if len(dm["d"]["rows"]) < 2 or dm["d"]["rows"][0] != dm["d"]["rows"][1]]
+            datas = [dm for dm in datas if len(dm["d"]["rows"]) < 2 or dm["d"]["rows"][0] == inputs.D_ROWS_Q[0]]
         for data in datas:
             nrows = len(data[hist["table"]]["rows"])
             variants = [("pandas", iv, ex) for iv in (INDEX_VARIANTS if nrows > 0 else ["default"]) for ex in ((False, True) if iv == "default" else (False,))]
@@ -161,6 +166,8 @@ def work(hists, open_ids):
                 for ename, _ in entry_points(ops, hist, {}, single):
                     if extra and ename not in ("eval", "transform"):
                         continue  # the strict entry points refuse extra columns by design
+                    if quick and ename != "eval" and iv not in ("default", "strings", "range_offset"):
+                        continue  # quick tier: the other entry points share _table_step with eval; three index kinds there
                     frames = mk_frames(kind, data, iv, extra)
                     before = {k: snap(v) for k, v in frames.items()}
                     ids = {k: id(v) for k, v in frames.items()}
@@ -209,7 +216,7 @@ def run(tier):
     for s in s1 + s2:
         seen.setdefault(s.key, s.hist)
     hists = core.rotate(list(seen.values()), run.seed)
-    for p in core.pmap(work, [(c, list(run.open_findings)) for c in core.chunks(hists, 6)]):
+    for p in core.pmap(work, [(c, list(run.open_findings), tier == "quick") for c in core.chunks(hists, 6)]):
         run.merge(p)
     run.set("states", len(hists))
     run.set("transitions", ex1.stats()["transitions"] + ex2.stats()["transitions"])
@@ -222,7 +229,7 @@ def run(tier):
         exhaustive=True,
         rule="every core-menu state at depth <= 1 and every state at depth <= 2 over "
         + ("the C19 slice" if tier == "quick" else "the core menu")
-        + " x all multisets of <= 2 rows x {Pandas with default / reversed / duplicate / string index and with an extra unused column, Polars eager, Polars lazy} x {eval, transform, ex, frame >> ops, act_on}; each evaluated twice",
+        + " x " + ("the empty table, every single row and two two-row tables" if tier == "quick" else "all multisets of <= 2 rows") + " x {Pandas with default / reversed / duplicate / string index and with an extra unused column, Polars eager, Polars lazy} x {eval, transform, ex, frame >> ops, act_on}; each evaluated twice",
     )
 
 
